@@ -12,8 +12,8 @@ RULE = (
     "scan_count, match_count; non-trivial = the control fired at least once; state = (variables, counters, flags, record)"
 )
 BOUNDS = {
-    "quick": "k=1..2 markers, all positions, 11 controls, all files of <=4 records, windows {*, 1*, 1-2, 0+2}",
-    "thorough": "k=1..3 markers (one of them a print), all positions, 11 controls, all files of <=5 records, 9 windows",
+    "quick": "k=1..2 markers, all positions, 12 controls, all files of <=4 records, windows {*, 1*, 1-2, 0+2}",
+    "thorough": "k=1..3 markers (one of them a print), all positions, 12 controls, all files of <=5 records, 9 windows",
 }
 ASSUMPTIONS = [
     "not asserted: the scan's final line being a blank record (never offered; docs are silent)",
@@ -43,6 +43,7 @@ CONTROLS = {
     "advance(1)": fn("advance", [], [["t", 1]]),
     "advance(2)": fn("advance", [], [["t", 2]]),
     "C->advance(1)": ["->", C, fn("advance", [], [["t", 1]])],
+    "C->advance(3)": ["->", C, fn("advance", [], [["t", 3]])],
     "last()->push": ["->", fn("last"), LPUSH],
     "last.nocontrib()->push": ["->", fn("last", ["nocontrib"]), LPUSH],
     "last()": fn("last"),
